@@ -861,7 +861,8 @@ def _scalar_methods() -> List[Method]:
     add("date_col_0.date_diff(date_col_1)", "a0.date_diff(a1)", ["date", "date"], lambda a, b: Either((a - b).days, (b - a).days), nn2, "sign of the difference not documented; " + NN)
     add("datetime_col_0.datetime_to_date()", "a0.datetime_to_date()", ["datetime"], lambda a: a.date(), nn1, NN)
     add("date_col_0.dayofmonth()", "a0.dayofmonth()", ["date"], lambda a: a.day, nn1, NN)
-    add("date_col_0.dayofweek()", "a0.dayofweek()", ["date"], None, skip="'Convert date to date of week': the numbering of the week days is not documented")
+    add("date_col_0.dayofweek()", "a0.dayofweek()", ["date"], lambda a: 1 + ((a.weekday() + 1) % 7), nn1,
+        "numbering taken from the SQL the library itself emits for this method, EXTRACT(DAYOFWEEK FROM x): 1 = Sunday ... 7 = Saturday; " + NN)
     add("date_col_0.dayofyear()", "a0.dayofyear()", ["date"], lambda a: a.timetuple().tm_yday, nn1, NN)
     add("x.exp()", "a0.exp()", ["num"], _prop(math.exp), big, "results beyond the float range")
     add("y.expm1()", "a0.expm1()", ["num"], _prop(math.expm1), big, "results beyond the float range")
